@@ -22,7 +22,7 @@ theorem c12_unicast (s : Stack) (e : SDEntry) (a : Addr) :
 instance gets one timer at now + delay -/
 theorem c12_multicast (s : Stack) (e : SDEntry) (a : Addr) (hne : answering s e ≠ []) :
     s.handleFind e a true =
-      (answering s e).foldl (fun st i => (st.callLater (s.draw s.tm.reqRespDelayMin s.tm.reqRespDelayMax).2 (.sendOfferTo i a)).1)
+      (answering s e).foldl (fun st i => ((st.logAnswer i a (s.draw s.tm.reqRespDelayMin s.tm.reqRespDelayMax).2).callLater (s.draw s.tm.reqRespDelayMin s.tm.reqRespDelayMax).2 (.sendOfferTo i a)).1)
         (s.draw s.tm.reqRespDelayMin s.tm.reqRespDelayMax).1 := by
   unfold handleFind
   have : ¬ ((answering s e).isEmpty = true) := by simpa using hne
